@@ -3,6 +3,9 @@
 (* Trace validation for SsRx.  A trace is the event log of one run of the  *)
 (* real HeaderPacketReceiver against the word-level link-partner model:    *)
 (*   {e:"up"} {e:"down", reset} {e:"reset"}                 enable / USB reset *)
+(*   {e:"reset_up"}   usb_reset strobed while enable was high; logged after the  *)
+(*                    outputs of the following cycle (a command the dispatcher   *)
+(*                    committed to before the strobe is presented by then)       *)
 (*   {e:"hdr", h:k}   a header's last word arrived; its words are row k of the  *)
 (*                    header table (HDR_FILE: 8 x 16-bit limbs of DW0..DW3)      *)
 (*   {e:"lc_rx", lo, hi, ctrl}                     a link command word arrived  *)
@@ -47,6 +50,7 @@ Judge(r, k) ==
     CASE r.e = "up"     -> IF enabled THEN "env_up_while_up" ELSE "ok"
       [] r.e = "down"   -> IF ~enabled THEN "env_down_while_down" ELSE "ok"
       [] r.e = "reset"  -> IF enabled THEN "env_reset_while_up" ELSE "ok"
+      [] r.e = "reset_up" -> "ok"
       [] r.e = "hdr"    -> IF HdrLegal(k, (HdrSeq(Hdrs[r.h]) + 8 - expSeq) % 8) THEN "ok"
                            ELSE "env_hdr_illegal"
       [] r.e = "lc_rx"  -> IF LcValid(r) /\ LcCmd(r) = LRTY /\ (~enabled \/ lbadOwed)
@@ -58,6 +62,7 @@ Judge(r, k) ==
       [] r.e = "txs"    -> IF cur = "none" THEN "ok" ELSE "tx_overlap"
       [] r.e = "txe"    -> IF cur = "none" THEN "tx_without_start"
                            ELSE IF ~LcValid(r) THEN "tx_malformed"
+                           ELSE IF cur = "stale_up" THEN "ok"
                            ELSE IF cur = "stale" THEN (IF enabled THEN "stale_command_after_up" ELSE "ok")
                            ELSE TxJudge(LcCmd(r), LcSub(r))
       [] r.e = "quiet"  -> IF QuietJudge # "ok" THEN QuietJudge
@@ -68,13 +73,14 @@ Apply(r, k) ==
     CASE r.e = "up"     -> LinkUp
       [] r.e = "down"   -> LinkDown(r.reset)
       [] r.e = "reset"  -> UsbReset
+      [] r.e = "reset_up" -> IF enabled THEN ResetUp ELSE UsbReset      \* (enable fell in the meantime)
       [] r.e = "hdr"    -> HdrArrive(k, (HdrSeq(Hdrs[r.h]) + 8 - expSeq) % 8, HdrContent(Hdrs[r.h]))
       [] r.e = "lc_rx"  -> IF LcValid(r) /\ LcCmd(r) = LRTY THEN PartnerLrty ELSE UNCHANGED vars
       [] r.e = "consume" -> Consume
       [] r.e = "retry_req" -> RetryReq
       [] r.e = "ka_req" -> KeepaliveReq
       [] r.e = "txs"    -> TxStart
-      [] r.e = "txe"    -> IF cur = "stale" THEN TxEndStale ELSE TxEndFresh(LcCmd(r), LcSub(r))
+      [] r.e = "txe"    -> IF cur \in {"stale", "stale_up"} THEN TxEndStale ELSE TxEndFresh(LcCmd(r), LcSub(r))
       [] r.e = "quiet"  -> Quiet
 
 TInit == /\ Init
